@@ -11,6 +11,7 @@ import (
 
 	"github.com/smart-core-os/sc-api/go/traits"
 	"github.com/smart-core-os/sc-api/go/types"
+	"github.com/smart-core-os/sc-golang/pkg/masks"
 	"github.com/smart-core-os/sc-golang/pkg/resource"
 )
 
@@ -44,7 +45,8 @@ func (m *ModelServer) ListConsumables(_ context.Context, request *traits.ListCon
 	lastKey := pageToken.GetLastResourceName() // the key() of the last item we sent
 	pageSize := capPageSize(int(request.GetPageSize()))
 
-	sortedItems := m.model.ListConsumables(resource.WithReadMask(request.ReadMask))
+	// the read mask is applied to the page below: paging needs the key of every item
+	sortedItems := m.model.ListConsumables()
 	nextIndex := 0
 	if lastKey != "" {
 		nextIndex = sort.Search(len(sortedItems), func(i int) bool {
@@ -71,6 +73,10 @@ func (m *ModelServer) ListConsumables(_ context.Context, request *traits.ListCon
 		return nil, err
 	}
 	result.Consumables = sortedItems[nextIndex:upperBound]
+	filter := masks.NewResponseFilter(masks.WithFieldMask(request.ReadMask))
+	for i, item := range result.Consumables {
+		result.Consumables[i] = filter.FilterClone(item).(*traits.Consumable)
+	}
 	return result, nil
 }
 
@@ -125,7 +131,8 @@ func (m *ModelServer) ListInventory(_ context.Context, request *traits.ListInven
 	lastKey := pageToken.GetLastResourceName() // the key() of the last item we sent
 	pageSize := capPageSize(int(request.GetPageSize()))
 
-	sortedItems := m.model.ListInventory(resource.WithReadMask(request.ReadMask))
+	// the read mask is applied to the page below: paging needs the key of every item
+	sortedItems := m.model.ListInventory()
 	nextIndex := 0
 	if lastKey != "" {
 		nextIndex = sort.Search(len(sortedItems), func(i int) bool {
@@ -152,6 +159,10 @@ func (m *ModelServer) ListInventory(_ context.Context, request *traits.ListInven
 		return nil, err
 	}
 	result.Inventory = sortedItems[nextIndex:upperBound]
+	filter := masks.NewResponseFilter(masks.WithFieldMask(request.ReadMask))
+	for i, item := range result.Inventory {
+		result.Inventory[i] = filter.FilterClone(item).(*traits.Consumable_Stock)
+	}
 	return result, nil
 }
 
